@@ -548,6 +548,8 @@ from chempy import Reaction, ReactionSystem
 rxs = %(rxs)s
 rxns = [Reaction(r[0], r[1], 7, inact_reac=r[2], inact_prod=r[3], checks=()) for r in rxs]
 dup = rxs[0] == rxs[1]
+ReactionSystem([Reaction({"A": 1}, {"B": 1}), Reaction({"A": 1}, {"B": 1})], "A B", dont_check={"duplicate"})   # earlier, unrelated opt-outs
+ReactionSystem([Reaction({"A": 1}, {"Q": 1})], "A B", dont_check={"substance_keys"})
 try:
     ReactionSystem(rxns, "A B C")
     refused = None
@@ -562,6 +564,12 @@ except ValueError:
 try:
     ReactionSystem([Reaction({"A": 1}, {"B": 1}, name="x"), Reaction({"B": 1}, {"C": 1}, name="x")], "A B C"); bad = True
 except ValueError:
+    pass
+rs3 = ReactionSystem([Reaction({"A": 1}, {"B": 1}), Reaction({"B": 1}, {"C": 1})], "A B C")
+if [rs3.as_substance_index(k) for k in "ABC"] != [0, 1, 2]: bad = True
+try:
+    print("as_substance_index('X') ->", rs3.as_substance_index("X")); bad = True
+except (ValueError, KeyError, IndexError):
     pass
 sys.exit(1 if bad else 0)
 '''
@@ -581,6 +589,9 @@ def task_constructor():
         rxns = [Reaction(dict(r[0]), dict(r[1]), 7, inact_reac=dict(r[2]), inact_prod=dict(r[3]), checks=()) for r in rxs]
         for r in rxns:
             r.string = lambda *a, **k: "<rxn>"
+        # history: earlier, unrelated constructions that opted out of a check must not switch it off (or on) for this one
+        ReactionSystem([Reaction({"A": 1}, {"B": 1}), Reaction({"A": 1}, {"B": 1})], "A B", dont_check={"duplicate"})
+        ReactionSystem([Reaction({"A": 1}, {"Q": 1})], "A B", dont_check={"substance_keys"})
         return ReactionSystem(rxns, keys)
 
     same = z3.And(*[eq_term(rxs[0][i][k], rxs[1][i][k]) for i in range(4) for k in rxs[0][i]])
@@ -604,6 +615,14 @@ def task_constructor():
         ReactionSystem([Reaction({"A": 1}, {"B": 1}, name="x"), Reaction({"B": 1}, {"C": 1}, name="x")], "A B C")
         bad.append("duplicate names accepted")
     except ValueError:
+        pass
+    rs3 = ReactionSystem([Reaction({"A": 1}, {"B": 1}), Reaction({"B": 1}, {"C": 1})], "A B C")
+    if [rs3.as_substance_index(k) for k in "ABC"] != [0, 1, 2] or rs3.as_substance_index(2) != 2:
+        bad.append("as_substance_index is not the position in substance order")
+    try:
+        got = rs3.as_substance_index("X")
+        bad.append("as_substance_index of a key that is not a substance returned %r" % (got,))
+    except (ValueError, KeyError, IndexError):
         pass
     rs = ReactionSystem([Reaction({"B": 1}, {"A": 1})], "B A")
     if list(rs.substances) != ["B", "A"] or list(ReactionSystem([Reaction({"B": 1}, {"A": 1})]).substances) != ["A", "B"]:
